@@ -148,13 +148,8 @@ class Universe:
         self._dms = {}
 
     def model(self, i):
-        from cidersim import zoo
-
         if i not in self._models:
-            d = self.desc["models"][i]
-            rng = Rng(derive("c09-model", d["seed"], d["settings"], d["ev"], d["mode"], d["version"]))
-            st = zoo.make_settings(d["settings"], rng)
-            self._models[i] = zoo.make_model(st, rng, evaluator=d["ev"], mode=d["mode"], version=d["version"])
+            self._models[i] = self.fresh_model(i)
         return self._models[i]
 
     def fresh_model(self, i):
@@ -163,7 +158,10 @@ class Universe:
         d = self.desc["models"][i]
         rng = Rng(derive("c09-model", d["seed"], d["settings"], d["ev"], d["mode"], d["version"]))
         st = zoo.make_settings(d["settings"], rng)
-        return zoo.make_model(st, rng, evaluator=d["ev"], mode=d["mode"], version=d["version"])
+        m = zoo.make_model(st, rng, evaluator=d["ev"], mode=d["mode"], version=d["version"])
+        if d.get("retrained"):
+            _retrain(m, float(d["retrained"]))
+        return m
 
     def mol(self, k, fresh=False):
         from cidersim import zoo
@@ -193,6 +191,22 @@ class Universe:
             else:
                 self._dms[key] = zoo.make_dm(self.mol(k), Rng(derive("c09-dm", self.desc["mols"][k]["dseed"], nspin, j)), nspin)
         return self._dms[key]
+
+
+def _retrain(model, factor):
+    """the same model after another training run: every array keeps its shape (a saved file
+    keeps its size), the weights differ"""
+    for k in model.kernels:
+        for fe in k.fevals:
+            for name in ("alpha", "_alpha", "consts", "const"):
+                a = getattr(fe, name, None)
+                if isinstance(a, np.ndarray) and a.dtype.kind == "f":
+                    setattr(fe, name, np.ascontiguousarray(a * factor))
+                elif isinstance(a, float):
+                    setattr(fe, name, a * factor)
+            cs = getattr(fe, "coeff_sets", None)
+            if isinstance(cs, list):
+                fe.coeff_sets = [np.ascontiguousarray(np.asarray(c) * factor) for c in cs]
 
 
 def make_ks(model, mol, uks, gcfg, mdesc):
@@ -233,6 +247,23 @@ def make_ks(model, mol, uks, gcfg, mdesc):
         from ciderpress.pyscf.sdmx import PySCFSDMXInitializer
 
         sdmx_init = PySCFSDMXInitializer(st.sdmx_settings, **mdesc["sdmx_kw"])
+    if mdesc.get("via_file"):
+        # the functional is handed over as a file name (what make_cider_calc documents): the
+        # user's one model file, overwritten by each retrained model, its time stamp preserved
+        # by the copy tool
+        import joblib
+
+        d_ = os.path.join(os.environ.get("VERIF_SCRATCH", "/tmp"), "cidersim_c09_models_%d" % os.getpid())
+        if not os.path.isdir(d_):
+            import atexit
+            import shutil
+
+            os.makedirs(d_, exist_ok=True)
+            atexit.register(shutil.rmtree, d_, True)
+        path_ = os.path.join(d_, "model.joblib")
+        joblib.dump(model, path_)
+        os.utime(path_, (1.7e9, 1.7e9))
+        model = path_
     form = mdesc.get("xc_form", "pbe_pair")
     if form == "none":
         # the documented default: CIDER in place of exact exchange, nothing else
@@ -281,11 +312,16 @@ def gen_ni_history(seed):
         s, ev, mode, ver = rng.choice(NI_MODELS)
         models.append({"settings": s, "ev": ev, "mode": mode, "version": ver, "seed": rng.below(10**6), "plan_type": rng.choice(["gaussian", "spline"]), "interp": rng.choice(["onsite_direct", "onsite_spline"]), "xmix": rng.choice([1.0, 0.5, 0.25]), "zero_d": bool(rng.chance(0.3)), "alpha_max": rng.choice([300.0, 1000.0, 3000.0, 3000.0]), "lmax": rng.choice([None, None, None, 6, 8]), "rhocut": rng.choice([None, None, None, 1e-6, 1e-4, 1e-3]),
                        "xc_form": rng.choice(["pbe_pair", "pbe_pair", "pbe_pair", "none", "xc"]),
+                       "via_file": bool(rng.chance(0.2)),
                        "sdmx_kw": rng.choice([None, None, None, {"lowmem": True}, {"alpha0": 0.02, "lambd": 2.0, "nalpha": 8}, {"lowmem": True, "lambd": 1.6}])})
         if rng.chance(0.4):
             # the second calculator of this model (two KS objects in one script, on the same
             # grids) is configured with other optional settings than the first
             models[-1]["calc1"] = {"lmax": rng.choice([None, 6, 8]), "alpha_max": rng.choice([300.0, 1000.0, 3000.0])}
+    if nm == 2 and rng.chance(0.3):
+        # a retrained copy of the first model: same recipe and shapes, other numbers
+        models[1] = dict(models[0], retrained=rng.choice([1.1, 0.9, 1.5]), calc1=None)
+        models[1].pop("calc1")
     nmol = rng.randint(1, 3)
     mols = []
     for _ in range(nmol):
@@ -324,6 +360,16 @@ def gen_ni_history(seed):
             ops.append(dict(tmpl, mol=it % 2, dms=[rng.below(2)]))
             ops.append({"op": "drop_all"})
         return {"kind": "ni", "models": models, "mols": mols, "grids": grids[:1], "ops": ops, "perturb": rng.choice(PERTURBS)}
+    if not big and rng.chance(0.08):
+        # a model file that is overwritten by a retrained model (same recipe and shapes, other
+        # numbers; the file keeps its name, size and time stamp) between two calculators
+        m0 = dict(models[0], via_file=True)
+        m0.pop("calc1", None)
+        models = [m0, dict(m0, retrained=rng.choice([1.1, 0.9, 1.5]))]
+        tmpl = {"op": "call", "model": 0, "mol": 0, "grid": 0, "uks": bool(rng.chance(0.4)), "dms": [0], "max_memory": 2000, "calc": 0, "container": "single", "alias": None}
+        for it in range(rng.randint(2, 4)):
+            ops.append(dict(tmpl, model=it % 2, dms=[rng.below(2)]))
+        return {"kind": "ni", "models": models, "mols": mols[:1], "grids": grids[:1], "ops": ops, "perturb": rng.choice(PERTURBS)}
     if not big and rng.chance(0.1):
         # block sweep: one request under every memory budget (each budget cuts the grid into
         # other blocks), with a density threshold high enough for whole blocks to fall below it
@@ -456,7 +502,7 @@ def exec_ni_history(hist, rp):
             set_perturb(hist["perturb"] ^ 0x5A)
             model = U.fresh_model(mi)
             mol = U.mol(k, fresh=True)
-            ks = make_ks(model, mol, uks, hist["grids"][gi], mdesc_of(mi, ci))
+            ks = make_ks(model, mol, uks, hist["grids"][gi], dict(mdesc_of(mi, ci), via_file=False))  # (the object itself, not a file)
             ks.build()
             g = build_grids(ks, mol)
             dm = np.array(U.dm(k, 2 if uks else 1, j), copy=True) * scale
@@ -551,7 +597,7 @@ def exec_ni_history(hist, rp):
         ni = ks._numint
         gk = (bool(model.settings.has_nldf), k, gi)
         if gk not in gridobjs:
-            tmp = make_ks(model, mol, uks, hist["grids"][gi], hist["models"][mi])
+            tmp = make_ks(model, mol, uks, hist["grids"][gi], dict(hist["models"][mi], via_file=False))
             gridobjs[gk] = build_grids(tmp, mol)
         g = gridobjs[gk]
         # probes for reuse vs re-initialisation
@@ -688,18 +734,31 @@ def gen_gen_history(seed):
     from cidersim.workloads import omp_workloads as W
 
     rng = Rng(derive("c09-gen", seed))
-    if rng.chance(0.15):
+    if rng.chance(0.22):
         # descriptor-generation generator ("train_gen" interpolator): output coordinates are
         # re-targeted between calls; features with occupation derivatives
         p = W.draw_nldf_params(rng)
         p["nspin"] = 1
         p["interp"] = "train_gen"
-        p["mol"] = rng.choice(["He", "H2", "LiH"])
+        p["mol"] = rng.choice(["He", "He", "H2", "LiH"])
         ops = []
+        TWIN = {1: 3, 3: 1, 2: 4, 4: 2}
+        if rng.chance(0.4):
+            # descriptors of one system on a sequence of point sets, look-alikes in a row
+            a_ = rng.choice([1, 2, 3, 4])
+            for c_ in (a_, TWIN[a_], a_, rng.below(5), TWIN[a_]):
+                ops.append({"op": "setc", "spin": 0, "c": c_})
+                ops.append({"op": "occd", "spin": 0, "rho": rng.below(3), "norb": rng.choice([0, 1, 2]), "same_out": False, "alias": None})
+            return {"kind": "tgen", "params": p, "ops": ops, "perturb": rng.choice(PERTURBS)}
         for _ in range(rng.randint(3, 8)):
             c = rng.weighted([("setc", 3), ("occd", 5), ("feat", 2)])
             if c == "setc":
-                ops.append({"op": "setc", "spin": 0, "c": rng.below(3)})
+                prev_c = [o["c"] for o in ops if o["op"] == "setc"]
+                if prev_c and prev_c[-1] in TWIN and rng.chance(0.5):
+                    # the look-alike of the current point set: as many points, elsewhere
+                    ops.append({"op": "setc", "spin": 0, "c": TWIN[prev_c[-1]]})
+                    continue
+                ops.append({"op": "setc", "spin": 0, "c": rng.below(5)})
             elif c == "occd":
                 ops.append({"op": "occd", "spin": 0, "rho": rng.below(3), "norb": rng.choice([0, 1, 2, 3]), "same_out": bool(rng.chance(0.3)), "alias": rng.choice([None, None, "readonly"])})
             else:
@@ -991,7 +1050,8 @@ def exec_tgen_history(hist, rp):
     r = np.random.default_rng(p["dseed"])
     rhos = [W._rho_data(r, nrho, ng) for _ in range(3)]
     orbs = [np.stack([W._rho_data(r, nrho, ng, scale=0.3) for _ in range(3)]) for _ in range(3)]
-    csets = [np.ascontiguousarray(r.normal(size=(n, 3)) * 1.2) for n in (7, 40, 131)]
+    # (look-alike point sets: the same number of points at other positions)
+    csets = [np.ascontiguousarray(r.normal(size=(n, 3)) * 1.2) for n in (7, 40, 131, 40, 131)]
     prhos = [[W._rho_data(r, nrho, c.shape[0]) for c in csets] for _ in range(3)]
     porbs = [[np.stack([W._rho_data(r, nrho, c.shape[0], scale=0.3) for _ in range(3)]) for c in csets] for _ in range(3)]
     cur = None  # index into csets, or "grid"
